@@ -402,7 +402,9 @@ func (o *jOracle) term() string {
 	for k := range o.floats {
 		keys = append(keys, k)
 	}
-	sort.Slice(keys, func(i, j int) bool { return keys[i][0] < keys[j][0] || (keys[i][0] == keys[j][0] && keys[i][1] < keys[j][1]) })
+	sort.Slice(keys, func(i, j int) bool {
+		return keys[i][0] < keys[j][0] || (keys[i][0] == keys[j][0] && keys[i][1] < keys[j][1])
+	})
 	items := make([]string, len(keys))
 	for i, k := range keys {
 		items[i] = emit.Pair(emit.Pair(emit.Z(k[0]), emit.Z(k[1])), emit.Str(o.floats[k]))
@@ -585,7 +587,7 @@ func emitWrite(ctx *core.Ctx, w *jWorld, data *tree.Cont, oracle *jOracle, st jS
 	failed := err != nil || panicked != ""
 	term := emit.App("CWrite", cfg.term(), oracle.term(), w.idtabTerm(), st.term, emit.Bool(failed), emit.Bytes(out))
 	desc := map[string]interface{}{"yang": w.yang, "data": data.Desc(w.root), "start": st.kind, "path": st.path, "config": cfg.String(),
-		"api": []string{"JSONWtr.Node+InsertInto", "JSONWtr.Node+UpsertInto", "WriteJSON/WritePrettyJSON/JSONWtr.JSON"}[api],
+		"api":    []string{"JSONWtr.Node+InsertInto", "JSONWtr.Node+UpsertInto", "WriteJSON/WritePrettyJSON/JSONWtr.JSON"}[api],
 		"output": quoteBytes(out)}
 	if err != nil {
 		desc["error"] = err.Error()
